@@ -751,6 +751,8 @@ class ESME:
             smpp_message: SmppMessage = message_class.from_pdu(
                 pdu, header, self.default_encoding, self.custom_codecs
             )
+            if isinstance(smpp_message, DeliverSm):
+                smpp_message.parse_receipt()  # Malformed receipt text is a parse error too
         except (ValueError, KeyError, StructError):
             if self._logger.isEnabledFor(ERROR):
                 self._logger.exception(
